@@ -28,10 +28,34 @@ def ticks(x, flag):
     return int(v)
 
 
+import copy
+
+
 def run(txns, noise=True):
     flag = []
     try:
-        r = analyze_transactions([mk(t, noise) for t in txns])
+        objs = [mk(t, noise) for t in txns]
+        before = copy.deepcopy(objs)
+        r = analyze_transactions(objs)
+        if objs != before:
+            return {'error': 'analysis wrote into the transactions it was given: ' +
+                    repr([sorted(set(a) ^ set(b)) or 'values changed' for a, b in zip(objs, before) if a != b][:2])}
+        # the same objects analysed again after the caller changed them must give what fresh objects give
+        if len(objs) >= 2:
+            for o, src in zip(objs, before[1:] + before[:1]):
+                o['amount'], o['merchant'] = src['amount'], src['merchant']
+                if 'tags' in src:
+                    o['tags'] = list(src['tags'])
+                else:
+                    o.pop('tags', None)
+            fresh = copy.deepcopy(objs)
+            a2, b2 = analyze_transactions(objs), analyze_transactions(fresh)
+            keys = ['income_total', 'investment_total', 'spending_total', 'credits_total', 'transfers_in', 'transfers_out',
+                    'cash_flow', 'transfers_net', 'total', 'count']
+            if any(a2[k] != b2[k] for k in keys) or {k: v['total'] for k, v in a2['by_merchant'].items()} != \
+                    {k: v['total'] for k, v in b2['by_merchant'].items()}:
+                return {'error': 're-analysis of changed transaction objects differs from analysis of fresh copies: ' +
+                        repr({k: (a2[k], b2[k]) for k in keys if a2[k] != b2[k]})}
     except Exception as e:  # noqa
         return {'error': f'{type(e).__name__}: {e}'}
     out = {k: ticks(r[k], flag) for k in ['income_total', 'investment_total', 'spending_total', 'credits_total',
